@@ -21,7 +21,10 @@ pub enum RCall {
     Recv,
     RecvTimeout,
     TryRecv,
+    /// `server.incoming_requests().next()`: a fresh iterator for every call
     IterNext,
+    /// `it.next()` on ONE iterator object kept by the receiver thread for all its calls
+    IterKept,
 }
 
 #[derive(Clone, Debug, PartialEq)]
@@ -43,6 +46,7 @@ impl SScenario {
             "Recv" => RCall::Recv,
             "RecvTimeout" => RCall::RecvTimeout,
             "TryRecv" => RCall::TryRecv,
+            "IterKept" => RCall::IterKept,
             _ => RCall::IterNext,
         };
         SScenario {
@@ -90,6 +94,7 @@ pub fn body(sc: SScenario, obs: Arc<Mutex<SObs>>) {
     for (ri, prog) in sc.receivers.iter().enumerate() {
         let (server, obs, prog) = (srv.server.clone(), obs.clone(), prog.clone());
         hs.push(thread::spawn_named(Some(format!("receiver{}", ri)), move || {
+            let mut kept = server.incoming_requests();
             for (k, call) in prog.iter().enumerate() {
                 let slot = {
                     let mut o = obs.lock().unwrap();
@@ -111,6 +116,7 @@ pub fn body(sc: SScenario, obs: Arc<Mutex<SObs>>) {
                         Err(_) => (None, true),
                     },
                     RCall::IterNext => (server.incoming_requests().next(), false),
+                    RCall::IterKept => (kept.next(), false),
                 };
                 let w1 = ctl::my_blocking_ops();
                 let url = rq.as_ref().map(|r| r.url().to_string());
@@ -240,7 +246,7 @@ pub fn judge(sc: &SScenario, o: &SObs, res: &RunResult, which: &str) -> Vec<(Str
         }
         let consumed = sc.unblocks as i64 - q2.1 as i64;
         let recv_errs = o.calls.iter().filter(before_q2).filter(|c| c.kind == "Recv" && matches!(c.returned, Some((None, true, _, _)))).count() as i64;
-        let iter_nones = o.calls.iter().filter(before_q2).filter(|c| c.kind == "IterNext" && matches!(c.returned, Some((None, _, _, _)))).count() as i64;
+        let iter_nones = o.calls.iter().filter(before_q2).filter(|c| (c.kind == "IterNext" || c.kind == "IterKept") && matches!(c.returned, Some((None, _, _, _)))).count() as i64;
         let all_empty = o.calls.iter().filter(before_q2).filter(|c| matches!(c.returned, Some((None, _, _, _)))).count() as i64;
         if recv_errs + iter_nones > consumed {
             f.push((
@@ -283,6 +289,8 @@ pub fn scenarios(which: &str, tier: Tier) -> Vec<(SScenario, u32)> {
         vec![RCall::TryRecv, RCall::Recv],
         vec![RCall::Recv, RCall::Recv],
         vec![RCall::RecvTimeout, RCall::TryRecv],
+        vec![RCall::IterKept, RCall::IterKept],
+        vec![RCall::IterKept, RCall::IterKept, RCall::IterKept],
     ];
     let mut sets: Vec<Vec<Vec<RCall>>> = Vec::new();
     for a in &progs {
